@@ -1,3 +1,225 @@
-/- C15 — property theorems only (helper lemmas live in `Rooc/Proofs`). -/
+/-
+C15 — Limits and tolerances never turn into wrong answers.  PROPERTY THEOREMS ONLY.
+
+The branch-and-bound search is a parameter (`search : Options → MlpOutcome`, the answer of microlp's
+`Problem::solve_with` after its own validation); WHERE the search is when the clock fires is a run-time fact and
+is sampled by the harness.  Proved here, for every model, every option value and every search:
+* the labelling of the code AS IT STANDS (`Milp.solveMilpWith`, status of the microlp solution never read) is unsound
+  — concrete counterexample — and sound only when no limit can fire (`_partial`);
+* the repaired labelling (`Milp.solveMilpWithFixed`, fix candidate `fixes/C15-milp-status.diff`) is sound at full
+  strength: `Optimal` only for a finished search, `Feasible` only with an incumbent, an error without one;
+* invalid option values are rejected with an error by both.
+microlp's contract enters only as explicit hypotheses (`NoLimitOptimal`, `OptimalWithin`).
+-/
+import Rooc.Milp
+import Rooc.Proofs.Field
 namespace Rooc.Props.C15
+open Rooc Rooc.SolverWrap Rooc.Milp
+
+variable {K : Type} [Field K] [LinearOrder K] [IsStrictOrderedRing K] [FloorRing K]
+
+abbrev Search (K : Type) := Options (Ext K) → MlpOutcome (Ext K)
+
+/-- assumed contract of microlp: without a limit the search runs to completion (`Status::Optimal`). rooc sets no
+node limit, so the time limit is the only limit. -/
+def NoLimitOptimal (search : Search K) : Prop :=
+  ∀ o st obj vals, o.timeLimitNs = none → search o = .ok st obj vals → st = .optimal
+
+/-! ### what `wrapMilp` / `wrapMilpFixed` answer -/
+
+theorem wrapMilp_ok_inv {lm : LinModel (Ext K)} {out : MlpOutcome (Ext K)} {s : Solution (Ext K)}
+    (h : wrapMilp lm out = .ok s) : ∃ st obj vals, out = .ok st obj vals ∧ s.status = .optimal := by
+  unfold wrapMilp at h
+  split at h
+  · simp at h
+  · split at h
+    · simp at h
+    · split at h
+      · simp at h
+      · cases out with
+        | err e => simp only at h; split at h <;> simp at h
+        | ok st obj vals =>
+          simp only at h
+          cases hc : constraintsMap lm vals with
+          | none => simp [hc] at h
+          | some cm =>
+            simp only [hc, Res.ok.injEq] at h
+            subst h
+            exact ⟨st, obj, vals, rfl, rfl⟩
+
+theorem wrapMilpFixed_ok_inv {lm : LinModel (Ext K)} {out : MlpOutcome (Ext K)} {s : Solution (Ext K)}
+    (h : wrapMilpFixed lm out = .ok s) :
+    ∃ st obj vals, out = .ok st obj vals ∧
+      ((st = .optimal ∧ s.status = .optimal) ∨ (st = .feasible ∧ s.status = .feasible)) := by
+  cases out with
+  | err e =>
+    unfold wrapMilpFixed at h
+    cases hw : wrapMilp lm (.err e) with
+    | ok s' => obtain ⟨_, _, _, h1, _⟩ := wrapMilp_ok_inv hw; simp at h1
+    | err v => simp [hw] at h
+    | panic => simp [hw] at h
+  | ok st obj vals =>
+    unfold wrapMilpFixed at h
+    cases hw : wrapMilp lm (.ok st obj vals) with
+    | err v => cases st <;> simp [hw] at h
+    | panic => cases st <;> simp [hw] at h
+    | ok s' =>
+      obtain ⟨_, _, _, _, hs'⟩ := wrapMilp_ok_inv hw
+      cases st with
+      | optimal =>
+        simp only [hw, Res.ok.injEq] at h; subst h
+        exact ⟨_, _, _, rfl, Or.inl ⟨rfl, hs'⟩⟩
+      | feasible =>
+        simp only [hw, Res.ok.injEq] at h; subst h
+        exact ⟨_, _, _, rfl, Or.inr ⟨rfl, rfl⟩⟩
+      | interrupted => simp [hw] at h
+
+theorem microlpSolveWith_ok {o : Options (Ext K)} {search : Search K} {st : MlpStatus} {obj : Ext K}
+    {vals : List (Ext K)} (h : microlpSolveWith o search = .ok st obj vals) :
+    optionsValid o = true ∧ search o = .ok st obj vals := by
+  unfold microlpSolveWith at h
+  split at h
+  · rename_i hv; exact ⟨hv, h⟩
+  · simp at h
+
+/-! ### labelling -/
+
+/-- REPAIRED CODE, full strength: a solution labelled `Optimal` comes from a search that microlp reports as finished
+(`Status::Optimal`, i.e. proven optimal within the configured gap). -/
+theorem label_sound_fixed (lm : LinModel (Ext K)) (o : Options (Ext K)) (search : Search K) (s : Solution (Ext K))
+    (h : solveMilpWithFixed lm o search = .ok s) (hs : s.status = .optimal) :
+    ∃ obj vals, search o = .ok .optimal obj vals := by
+  obtain ⟨st, obj, vals, hout, hcase⟩ := wrapMilpFixed_ok_inv h
+  obtain ⟨_, hsearch⟩ := microlpSolveWith_ok hout
+  rcases hcase with ⟨rfl, _⟩ | ⟨_, hf⟩
+  · exact ⟨obj, vals, hsearch⟩
+  · rw [hf] at hs; cases hs
+
+/-- consequence under microlp's contract for `Status::Optimal` (any predicate `Within` the dependency guarantees for
+a finished search, e.g. "objective within the requested gap of the true optimum"). -/
+theorem optimal_label_within_gap_fixed (Within : Options (Ext K) → Ext K → List (Ext K) → Prop)
+    (lm : LinModel (Ext K)) (o : Options (Ext K)) (search : Search K) (s : Solution (Ext K))
+    (contract : ∀ obj vals, search o = .ok .optimal obj vals → Within o obj vals)
+    (h : solveMilpWithFixed lm o search = .ok s) (hs : s.status = .optimal) :
+    ∃ obj vals, search o = .ok .optimal obj vals ∧ Within o obj vals := by
+  obtain ⟨obj, vals, hsearch⟩ := label_sound_fixed lm o search s h hs
+  exact ⟨obj, vals, hsearch, contract obj vals hsearch⟩
+
+/-- REPAIRED CODE: a returned solution always has an incumbent behind it (microlp reports `Interrupted` exactly when
+there is none), and it is labelled `Feasible` when the search did not finish. -/
+theorem no_solution_without_incumbent_fixed (lm : LinModel (Ext K)) (o : Options (Ext K)) (search : Search K)
+    (s : Solution (Ext K)) (h : solveMilpWithFixed lm o search = .ok s) :
+    ∃ st obj vals, search o = .ok st obj vals ∧ st ≠ .interrupted ∧
+      (st = .feasible → s.status = .feasible) := by
+  obtain ⟨st, obj, vals, hout, hcase⟩ := wrapMilpFixed_ok_inv h
+  obtain ⟨_, hsearch⟩ := microlpSolveWith_ok hout
+  rcases hcase with ⟨rfl, _⟩ | ⟨rfl, hf⟩
+  · exact ⟨_, obj, vals, hsearch, by decide, by intro h; cases h⟩
+  · exact ⟨_, obj, vals, hsearch, by decide, fun _ => hf⟩
+
+/-- REPAIRED CODE: a search stopped before any feasible point is known is reported as an error. -/
+theorem interrupted_is_error_fixed (lm : LinModel (Ext K)) (o : Options (Ext K)) (search : Search K)
+    (obj : Ext K) (vals : List (Ext K)) (hi : search o = .ok .interrupted obj vals) :
+    ∀ s, solveMilpWithFixed lm o search ≠ .ok s := by
+  intro s h
+  obtain ⟨st, _, _, hst, hne, _⟩ := no_solution_without_incumbent_fixed lm o search s h
+  rw [hi] at hst
+  cases hst
+  exact hne rfl
+
+/-- CURRENT CODE (partial: no time limit, under microlp's contract that only a limit stops the search early): the
+`Optimal` label is right. The hypothesis `o.timeLimitNs = none` is decidable; the harness counts the cases inside. -/
+theorem label_sound_partial (lm : LinModel (Ext K)) (o : Options (Ext K)) (search : Search K) (s : Solution (Ext K))
+    (hno : o.timeLimitNs = none) (contract : NoLimitOptimal search)
+    (h : solveMilpWith lm o search = .ok s) :
+    s.status = .optimal ∧ ∃ obj vals, search o = .ok .optimal obj vals := by
+  obtain ⟨st, obj, vals, hout, hs⟩ := wrapMilp_ok_inv h
+  obtain ⟨_, hsearch⟩ := microlpSolveWith_ok hout
+  have := contract o st obj vals hno hsearch
+  subst this
+  exact ⟨hs, obj, vals, hsearch⟩
+
+/-- the one-variable model `max b, b ∈ {0,1}` used by the counterexamples. -/
+def tiny : LinModel (Ext K) :=
+  { optType := .max, objective := [Ext.fin 1], offset := Ext.fin 0, vars := ["b"],
+    domain := [{ name := "b", ty := .bool, usage := 1 }], rows := [] }
+
+/-- CURRENT CODE, COUNTEREXAMPLE to `label_sound` and to `no_solution_without_incumbent`: with a time limit, a search
+that microlp reports as `Interrupted` (no incumbent; the values are its fractional working point `b = 1/2`) is
+returned as `Ok` with status `Optimal` — and the working point reads back as `b = true`. -/
+theorem label_sound_counterexample :
+    ∃ (lm : LinModel (Ext K)) (o : Options (Ext K)) (search : Search K) (s : Solution (Ext K)),
+      search o = .ok .interrupted (Ext.fin (1 / 2)) [Ext.fin (1 / 2)] ∧
+      solveMilpWith lm o search = .ok s ∧ s.status = .optimal ∧
+      s.assignment = [("b", .bool true)] := by
+  refine ⟨tiny, { mipGap := none, timeLimitNs := some 0 },
+    fun _ => .ok .interrupted (Ext.fin (1 / 2)) [Ext.fin (1 / 2)],
+    lpSolutionNew [("b", .bool true)] (Arith.add (Ext.fin (1 / 2)) (Ext.fin 0)) [], rfl, ?_, rfl, rfl⟩
+  simp [solveMilpWith, microlpSolveWith, optionsValid, wrapMilp, tiny, domainOf, isStrict, constraintsMap,
+    calcConstraints, imCollect, zipNames, readBack, Arith.ne, Arith.eq, Ext.eq, Arith.ofInt]
+
+/-! ### options -/
+
+/-- which gaps microlp accepts: exactly the finite non-negative numbers (NaN, ±inf and negative values are invalid). -/
+theorem gapValid_iff (g : Ext K) : gapValid g = true ↔ ∃ q : K, g = Ext.fin q ∧ 0 ≤ q := by
+  cases g with
+  | nan => simp [gapValid, Arith.isFinite, Ext.isFinite]
+  | ninf => simp [gapValid, Arith.isFinite, Ext.isFinite]
+  | pinf => simp [gapValid, Arith.isFinite, Ext.isFinite]
+  | fin q => simp [gapValid, Arith.isFinite, Ext.isFinite, Arith.lt, Ext.lt, Arith.ofInt]
+
+/-- Invalid option values never produce a solution, whatever the search would have answered — for the code as it
+stands and for the repaired code. -/
+theorem invalid_options_never_ok (lm : LinModel (Ext K)) (o : Options (Ext K)) (search : Search K)
+    (hinv : optionsValid o = false) :
+    (∀ s, solveMilpWith lm o search ≠ .ok s) ∧ (∀ s, solveMilpWithFixed lm o search ≠ .ok s) := by
+  have hout : microlpSolveWith o search = .err "InvalidOptions" := by simp [microlpSolveWith, hinv]
+  constructor
+  · intro s h
+    obtain ⟨_, _, _, h1, _⟩ := wrapMilp_ok_inv h
+    rw [hout] at h1; cases h1
+  · intro s h
+    obtain ⟨_, _, _, h1, _⟩ := wrapMilpFixed_ok_inv h
+    rw [hout] at h1; cases h1
+
+/-- … and on a model the wrapper accepts they are rejected with the error `SolverError::Other`. -/
+theorem invalid_options_rejected (lm : LinModel (Ext K)) (o : Options (Ext K)) (search : Search K)
+    (hacc : accepted lm = true) (hinv : optionsValid o = false) :
+    solveMilpWith lm o search = .err "Other" ∧ solveMilpWithFixed lm o search = .err "Other" := by
+  have hout : microlpSolveWith o search = .err "InvalidOptions" := by simp [microlpSolveWith, hinv]
+  simp only [accepted, Bool.and_eq_true, beq_iff_eq, List.all_eq_true, Bool.not_eq_true'] at hacc
+  obtain ⟨⟨h1, h2⟩, h3⟩ := hacc
+  have hw : wrapMilp lm (.err "InvalidOptions") = .err "Other" := by
+    unfold wrapMilp
+    have a : ¬ (lm.objective.length != lm.vars.length) = true := by simp [h1]
+    have b : ¬ (lm.vars.any fun v => (domainOf lm v).isNone) = true := by
+      simp only [List.any_eq_true, not_exists, not_and]
+      intro v hv
+      have := h2 v hv
+      cases hd : domainOf lm v <;> simp [hd] at this ⊢
+    have c : ¬ (lm.rows.any fun r => isStrict r.cmp) = true := by
+      simp only [List.any_eq_true, not_exists, not_and]
+      intro r hr
+      simp [h3 r hr]
+    simp [a, b, c, mapMlpError]
+  constructor
+  · simp [solveMilpWith, hout, hw]
+  · simp [solveMilpWithFixed, wrapMilpFixed, hout, hw]
+
+/-! ### non-vacuity (for every ordered field `K`) -/
+
+/-- `label_sound_fixed` / `no_solution_without_incumbent_fixed`: a finished search on the tiny model is returned. -/
+example : ∃ s : Solution (Ext K), solveMilpWithFixed tiny { mipGap := none, timeLimitNs := none }
+    (fun _ => .ok .optimal (Ext.fin 1) [Ext.fin 1]) = .ok s ∧ s.status = .optimal := by
+  refine ⟨lpSolutionNew [("b", .bool true)] (Arith.add (Ext.fin 1) (Ext.fin 0)) [], ?_, rfl⟩
+  simp [solveMilpWithFixed, wrapMilpFixed, microlpSolveWith, optionsValid, wrapMilp, tiny, domainOf, isStrict,
+    constraintsMap, calcConstraints, imCollect, zipNames, readBack, Arith.ne, Arith.eq, Ext.eq, Arith.ofInt]
+
+/-- `invalid_options_*`: a negative gap is invalid and the tiny model is accepted. -/
+example : optionsValid ({ mipGap := some (Ext.fin (-1 : K)), timeLimitNs := none } : Options (Ext K)) = false ∧
+    accepted (tiny (K := K)) = true := by
+  constructor
+  · simp [optionsValid, gapValid, Arith.isFinite, Ext.isFinite, Arith.lt, Ext.lt, Arith.ofInt]
+  · simp [accepted, tiny, domainOf, isStrict]
+
 end Rooc.Props.C15
